@@ -135,7 +135,9 @@ def cli(argv=sys.argv, mode='output'):
     # Be lenient on non string arguments
     argv = [str(x) for x in argv]
 
-    args = parser.parse_args(argv[1:])
+    # every message, error reports included, is a DIMACS comment
+    with msg_prefix('c '):
+        args = parser.parse_args(argv[1:])
 
     ask_kthlist_graph = """
        Waiting for a directed acyclic graph on <stdin>,
